@@ -296,6 +296,10 @@ func c03ReduceCase(r *Rand) string {
 var c03CommExprs = []string{"{sumi {.} {3}}", "{sumi {.} 1}", "{maxi {.} {3}}", "{mini {.} {3}}", "{subi {.} {3}}", "{multi {.} 2}",
 	"{sumi {.} {2}}", "{maxi {.} {2}}", "{sumi {3} {.}}", "{.}", "x"}
 
+// order-sensitive accumulators: the last value, concatenations, a difference that depends on the order, a conditional on the
+// previous state
+var c03OrdExprs = []string{"{2}", "{3}", "{.}{3}.", "{.}-", "{subi {3} {.}}", "{if {eq {.} 0} {2} {.}}", "{sumi {multi {.} 2} {3}}", "{1}:{2}"}
+
 func c03ReduceCCase(r *Rand) string {
 	flags := 0
 	if r.Chance(1, 4) {
@@ -327,6 +331,16 @@ func c03ReduceCCase(r *Rand) string {
 			name += ":" + Pick(r, []string{"0", "7", "-1", "100"})
 		}
 		accums = append(accums, name+"="+Pick(r, c03CommExprs))
+	}
+	// every fourth case: order-SENSITIVE accumulators (last value, concatenation, first-wins conditionals) with ONE reader and
+	// ONE worker over the several files - the batches then reach the aggregator in argument order, line by line (FIFO), whatever
+	// --batch / --batch-buffer: the reference is the sequential run over the files concatenated in argument order
+	ordered := r.Chance(1, 4)
+	if ordered {
+		accums = accums[:0]
+		for i := 0; i < na; i++ {
+			accums = append(accums, Pick(r, names)+strconv.Itoa(i)+"="+Pick(r, c03OrdExprs))
+		}
 	}
 	n := r.Intn(12)
 	if r.Chance(1, 6) {
@@ -360,6 +374,9 @@ func c03ReduceCCase(r *Rand) string {
 		nomatch = r.Range(1, 3)
 	}
 	tune := fmt.Sprintf("%d,%d,%d,%d", Pick(r, []int{1, 2, 3, 4}), Pick(r, []int{1, 2, 3}), Pick(r, []int{1, 1, 2, 3, 7, 1000}), Pick(r, []int{0, 1, 2, 1000}))
+	if ordered {
+		tune = fmt.Sprintf("1,1,%d,%d", Pick(r, []int{1, 1, 2, 3, 7, 1000}), Pick(r, []int{0, 1, 2, 1000}))
+	}
 	return fmt.Sprintf("reducec %s %d %s %s %s %s %d %s", tune, flags, HexS(initial), sortT, HexListS(groups), HexListS(accums), nomatch, c03EncFiles(files))
 }
 
@@ -383,6 +400,8 @@ func c03ReduceStats(f []string, st map[string]int) {
 }
 
 var c03ReduceCorpus = []string{
+	// one reader, one worker, three files, last={2} and a concatenation: argument order (a: 5,9,-2 -> last -2, `5.9.-2.`)
+	"reducec 1,1,2,1 0 30 - 67303d7b317d 6c6173743d7b327d;633d7b2e7d7b327d2e 1 6100350031;6200370031|6100390031|61002d320031;6200310031",
 	// three files, four workers, two readers: sum / max / count per key = the sequential reference
 	"reducec 4,2,1,0 0 30 - 67303d7b317d 74303d7b73756d69207b2e7d207b337d7d;6d78313d7b6d617869207b2e7d207b337d7d;6e323d7b73756d69207b2e7d20317d 1 6100310035;6200310037|6100310039;610031002d32|6200310031",
 	// no group, no accumulator: no columns at all (the guard of reduce_csv_roundtrip)
